@@ -8,7 +8,8 @@ src = "/tmp/wt/%s" % sid
 dst = os.path.join(os.path.dirname(os.path.dirname(os.path.abspath(__file__))), "seeded", sid)
 os.makedirs(dst, exist_ok=True)
 shutil.copy(os.path.join(src, "mutant.patch"), os.path.join(dst, "patch.diff"))
-demo = [f for f in ("demo.cpp", "demo.sh", "demo.py") if os.path.exists(os.path.join(src, f))]
+demo = sorted(f for f in os.listdir(src) if f.startswith("demo") and os.path.isfile(os.path.join(src, f)) and not os.access(os.path.join(src, f), os.X_OK) or f in ("demo.sh", "demo.py"))
+demo = [f for f in demo if os.path.exists(os.path.join(src, f)) and os.path.getsize(os.path.join(src, f)) < 200000 and f.split(".")[-1] in ("cpp", "sh", "py", "hpp", "gdb", "txt")]
 for f in demo:
     shutil.copy(os.path.join(src, f), os.path.join(dst, f))
 meta_txt = open(os.path.join(src, "meta.txt")).read() if os.path.exists(os.path.join(src, "meta.txt")) else ""
